@@ -117,6 +117,14 @@ def run(ck: Check):
                   others=STRATS[1:])
     from scale import big_frame_and_subdeletion
     big_frame_and_subdeletion(ck, frame=True, sub=False)
+    # marker lines whose CR LF straddles a multiple of a block size: the first candidates of a run still carry the text
+    # outside the markers
+    from boundaries import block_files
+    for name, data, small in block_files(quick):
+        if b"DDBEGIN" not in data:
+            continue
+        for atom in ("line", "symbol") + (("char", "jsstr", "attrs") if small and len(data) < 70000 else ()):
+            ex.one("minimize", {}, None, data, "Y" * 8, atom=atom, load=True, stream="block-boundary", model=False, cap=5, light=False)
     ex.diff()
     return ck.finish(level="proof", rule=RULE, assumptions=[
         "replace-* and the experimental move: their candidates are taken from the real generators "
